@@ -17,7 +17,7 @@ whole state sequence is compared. non-trivial = >= 2 response apps with a strict
 deferral / denial / install-error path; distinct by (script, plan) hash.";
 
 pub fn profile() -> Profile {
-    Profile { max_apps: 3, offer_w: 5, ..Default::default() }
+    Profile { max_apps: 3, offer_w: 5, junk_url: (1, 12), ..Default::default() }
 }
 
 pub fn gen_lives(t: &mut Tape) -> Vec<LifePlan> {
